@@ -35,4 +35,11 @@ def applyModel {Core : Type} (core : Option String → Core) (pn pv : Option Str
   | some (u, p) => some { core := core o.url, url := u, pag := p }
   | none => none
 
+/-- `ApplyForURL(url, timeout, opts)`: fetches, then runs `Apply` on the parsed response with a
+*copy* of the options whose page URL is the address the caller supplied (statement list
+`Gen.entryPointBodies`) -/
+def applyForURLModel {Core : Type} (core : Option String → Core) (pn pv : Option String → String × String)
+    (url : String) (o : Opts) : Option (AResult Core) :=
+  applyModel core pn pv { o with url := some url }
+
 end Distill
